@@ -103,7 +103,7 @@ def harnesses(ctx):
     return hs
 
 
-OUTSIDE = ["whole entries (form elision, split resolution, POS table) and the CSV reader", "matrix *text* parsing", "byte-identical determinism of compile (hash-order questions are not a solver matter)",
+OUTSIDE = ["whole entries (form elision at parse time, split resolution, POS table) and the CSV reader: LexiconReader::parse_record on one csv::StringRecord with four symbolic 2-letter fields did not leave symbolic execution in 1500 s [measured] even with the regex-based field parsers stubbed", "matrix *text* parsing", "byte-identical determinism of compile (hash-order questions are not a solver matter)",
            "strings longer than the enumerated width patterns"]
 EXPLANATION = "Writer composed with reader for each primitive codec of the binary format, symbolic contents."
 MANIFEST = dict(
